@@ -801,6 +801,13 @@ def index(base: T, idx: Tuple[T, ...], ranks: Optional[RankEnv] = None) -> T:
         if isinstance(base.iter, Range):
             v = add(base.iter.lo, mul(idx[0], base.iter.step))
             return substitute(base.elt, {base.var.key: v})
+    if isinstance(base, Idx) and len(base.idx) == 1 and isinstance(base.idx[0], Slc) and base.idx[0].step is None and base.idx[0].hi is None \
+            and base.idx[0].lo is not None and len(idx) == 1 and not isinstance(idx[0], Slc):
+        # s[lo:][k] == s[lo + k] for constant lo, k >= 0 (tuple tails from `a, *rest = s`)
+        lo_c = base.idx[0].lo.const_value() if isinstance(base.idx[0].lo, Poly) else None
+        k_c = idx[0].const_value() if isinstance(idx[0], Poly) else None
+        if lo_c is not None and k_c is not None and lo_c >= 0 and k_c >= 0:
+            return index(base.base, (add(base.idx[0].lo, idx[0]),), ranks)
     if isinstance(base, Idx) and not any(isinstance(i, Slc) for i in base.idx) and not any(isinstance(i, Slc) for i in idx):
         # A[i][j] == A[i, j] for arrays; keep nested form for unknown ranks (lists of lists)
         rb = ranks.rank(base.base)
